@@ -307,12 +307,60 @@ def work_table_history(job):
     return acc.result()
 
 
+def work_offgrid(job):
+    """result indices off the integer grid: a fractional index selects an adjacent whole row / column (never an
+    exception, never another cell), an index beyond the table - however large - is #REF!, below 1 #VALUE!"""
+    acc = Acc()
+    ev = feval.Evaluator()
+    for h, w in ((3, 3), (2, 4), (4, 2), (1, 3), (3, 1)):
+        env = {}
+        for r in range(h):
+            for c in range(w):
+                env[f'{W.get_column_letter(c + 1)}{r + 1}'] = (r + 1) if c == 0 else 100 * (r + 1) + c
+        for c in range(1, w):
+            env[f'{W.get_column_letter(c + 1)}1'] = c + 1        # first row sorted too, for HLOOKUP
+        tbl = f'A1:{W.get_column_letter(w)}{h}'
+        forms = [('VLOOKUP', f'=VLOOKUP(1,{tbl},K2,FALSE)', w), ('VLOOKUP', f'=VLOOKUP(1,{tbl},K2)', w),
+                 ('HLOOKUP', f'=HLOOKUP(1,{tbl},K2,FALSE)', h), ('INDEX', f'=INDEX({tbl},K2,1)', h), ('INDEX', f'=INDEX({tbl},1,K2)', w),
+                 ('INDEX', f'=INDEX({tbl},K2,K2)', min(h, w))]
+        if h == 1 or w == 1:
+            forms.append(('INDEX', f'=INDEX({tbl},K2)', max(h, w)))
+        for fn, f, n in forms:
+            for idx in [i + fr for i in range(0, n + 1) for fr in (0.25, 0.5, 0.999)] + [-0.5, -1.5, 1e10, 1e300, -1e300, n + 1, n + 7]:
+                o = ev.run(f, dict(env, K2=idx))
+                acc.add('evaluations')
+                acc.add('states')
+                acc.add('distinct_nontrivial')
+                case = dict(kind='offgrid', fn=fn, formula=f, shape=[h, w], idx=idx)
+                if o[0] != 'ok':
+                    acc.violation(dict(case, verdict='raised', exc=o[1]), f'{f} on a {h}x{w} table with K2={idx} raised {o[1]}: {o[2][-80:]}')
+                    continue
+                if idx >= n + 1:
+                    if o[1] != '#REF!':
+                        acc.violation(dict(case, verdict='index-out-of-range', observed=jsonable(o[1]), expected='#REF!'),
+                                      f'{f} on a {h}x{w} table with K2={idx} = {o[1]!r}, expected #REF!')
+                    continue
+                if idx < 0:
+                    if o[1] != '#VALUE!':
+                        acc.violation(dict(case, verdict='index-out-of-range', observed=jsonable(o[1]), expected='#VALUE!'),
+                                      f'{f} on a {h}x{w} table with K2={idx} = {o[1]!r}, expected #VALUE!')
+                    continue
+                lo = int(idx)
+                alts = [ev.run(f, dict(env, K2=v))[:2] for v in (lo, lo + 1)]
+                if o[:2] not in alts and not any(a[0] == 'ok' and W.veq(o[1], a[1]) for a in alts):
+                    acc.violation(dict(case, verdict='fraction-not-adjacent', observed=jsonable(o[1]), expected=jsonable([a[1] for a in alts])),
+                                  f'{f} on a {h}x{w} table with K2={idx} = {o[1]!r}; with K2 = {lo} / {lo + 1} it is {alts[0][1]!r} / {alts[1][1]!r}')
+    acc.counts['transitions'] = acc.counts.get('evaluations', 0)
+    return acc.result()
+
+
 def run(ctx):
     m = 64
     ctx.pmap(work_match0, [((k + ctx.seed) % m, m, 5 if ctx.thorough else 4) for k in range(m)], timeout=6000)
     ctx.pmap(work_match1, [(k, m, 6 if ctx.thorough else 5) for k in range(m)], timeout=6000)
     ctx.pmap(work_tables, [(k, 16) for k in range(16)], timeout=6000)
     ctx.pmap(work_table_history, [(0,)], timeout=600)
+    ctx.pmap(work_offgrid, [(0,)], timeout=600)
     ctx.counts['traces_validated_against_impl'] = ctx.counts.get('evaluations', 0)
     ctx.extra['pool'] = [repr(p) for p in POOL0]
     ctx.extra['sorted_pool'] = [repr(p) for p in SORTED_POOL]
@@ -331,6 +379,10 @@ def replay(case):
             return bad, f"{case['formula']} over {case['vec']} K1={case['v']!r} -> {obs[:2]!r}; linear scan {exp!r}"
         bad = obs[0] != 'ok' or not acceptable1(case['v'], case['vec'], case['sign'], obs[1])
         return bad, f"{case['formula']} over {case['vec']} K1={case['v']!r} -> {obs[:2]!r}"
+    if case['kind'] == 'offgrid':
+        r = work_offgrid((0,))
+        hits = [m for c, m in r['violations'] if all(c.get(x) == case.get(x) for x in ('formula', 'shape', 'idx'))]
+        return bool(hits), '\n'.join(hits[:2]) or 'no violation'
     if case['kind'] == 'history':
         r = work_table_history((0,))
         hits = [m for c, m in r['violations'] if c.get('keys') == case.get('keys') and c.get('v') == case.get('v')]
